@@ -105,6 +105,9 @@ impl Dict {
             "r1" => "example.com".to_string(),
             "r2" => "login.other-site.org".to_string(),
             "r3" => "xn--bcher-kva.example".to_string(),
+            // relying parties the client has special cases for (passkey-client/src/quirks.rs)
+            "rq1" => "adobe.com".to_string(),
+            "rq2" => "hyatt.com".to_string(),
             // relying-party ids that are different strings but "near" r1: an exact comparison tells them apart
             "r1case" => "EXAMPLE.com".to_string(),
             "r1sub" => "login.example.com".to_string(),
@@ -135,10 +138,11 @@ pub struct Shared {
     pub cancel_at: i64,
     pub cancelled: bool,
     /// status byte to return from the k-th fallible store call (find/save/update) of the ceremony; 0 = none
-    pub faults: Vec<u8>,
+    /// 0 = no fault; 1..=255 = fail with that status byte; 256 = fail with status byte 0x00
+    pub faults: Vec<u16>,
     pub fallible_calls: usize,
     /// concurrent runs: the fault plan and the number of fallible store calls made, per ceremony (`current`)
-    pub faults_by_cer: Vec<Vec<u8>>,
+    pub faults_by_cer: Vec<Vec<u16>>,
     pub calls_by_cer: Vec<usize>,
     /// answer of the user-validation step for the current ceremony
     pub uv_answer: Result<(bool, bool), u8>,
@@ -416,6 +420,8 @@ pub struct RefStore {
     pub empty_as_err: bool,
     /// the run's shared state: a later change of the environment overrides `disc`
     pub sh: Option<Sh>,
+    /// list a relying party's credentials newest first (a new record goes to the front)
+    pub newest_first: bool,
 }
 
 #[async_trait]
@@ -449,6 +455,8 @@ impl CredentialStore for RefStore {
     async fn update_credential(&mut self, cred: Passkey) -> Result<(), StatusCode> {
         if let Some(slot) = self.v.iter_mut().find(|p| p.credential_id == cred.credential_id) {
             *slot = cred;
+        } else if self.newest_first {
+            self.v.insert(0, cred);
         } else {
             self.v.push(cred);
         }
@@ -517,11 +525,11 @@ impl TStore {
         if let (Some(i), false) = (s.current, s.faults_by_cer.is_empty()) {
             let k = s.calls_by_cer[i];
             s.calls_by_cer[i] += 1;
-            return s.faults_by_cer[i].get(k).copied().filter(|b| *b != 0);
+            return s.faults_by_cer[i].get(k).copied().filter(|b| *b != 0).map(|b| (b % 256) as u8);
         }
         let k = s.fallible_calls;
         s.fallible_calls += 1;
-        s.faults.get(k).copied().filter(|b| *b != 0)
+        s.faults.get(k).copied().filter(|b| *b != 0).map(|b| (b % 256) as u8)
     }
     fn emit(&self, d: Value) {
         let mut s = self.sh.lock().unwrap();
@@ -721,6 +729,10 @@ pub fn new_store(kind: &str, disc: &str, empty_as_err: bool, creds: Vec<Passkey>
 /// `wrap`: which shipped lock wrapper stands between the traced store and the reference store
 /// ("none" | "mutex" | "rwlock" | "arcmutex" | "arcrwlock"; the shipped map and slot stores are used bare)
 pub fn new_store_wrapped(kind: &str, wrap: &str, disc: &str, empty_as_err: bool, creds: Vec<Passkey>, sh: &Sh) -> TStore {
+    new_store_full(kind, wrap, disc, empty_as_err, false, creds, sh)
+}
+
+pub fn new_store_full(kind: &str, wrap: &str, disc: &str, empty_as_err: bool, newest_first: bool, creds: Vec<Passkey>, sh: &Sh) -> TStore {
     let disc: &'static str = match disc {
         "full" => "full",
         "nondisc" => "nondisc",
@@ -730,7 +742,7 @@ pub fn new_store_wrapped(kind: &str, wrap: &str, disc: &str, empty_as_err: bool,
         "memory" => Inner::Memory(creds.into_iter().map(|p| (p.credential_id.clone().into(), p)).collect::<HashMap<Vec<u8>, Passkey>>()),
         "slot" => Inner::Slot(creds.into_iter().next()),
         _ => {
-            let r = RefStore { v: creds, disc, empty_as_err, sh: Some(sh.clone()) };
+            let r = RefStore { v: creds, disc, empty_as_err, sh: Some(sh.clone()), newest_first };
             match wrap {
                 "mutex" => Inner::MutexRef(tokio::sync::Mutex::new(r)),
                 "rwlock" => Inner::RwRef(tokio::sync::RwLock::new(r)),
